@@ -12,6 +12,7 @@ import Driver.Http
 import Driver.Term
 import Driver.Walk
 import Driver.Bind
+import Driver.Matcher
 /-
 fzfmodel: reads protocol lines `<area> <op> <args>... => <impl answer>` on stdin and
 prints, per line, `EQ|NE PASS|FAIL|NA | model=<answer> | <reason>`.
@@ -33,6 +34,7 @@ def dispatch (ctx : Driver.Algo.Ctx) (area op : String) (args impl : List String
   | "term" => Driver.Term.run ctx op args impl
   | "walk" => Driver.Walk.run op args impl
   | "bind" => Driver.Bind.run op args impl
+  | "matcher" => Driver.Matcher.run ctx op args impl
   | _ => { model := "bad-area" }
 
 def processLine (ctx : Driver.Algo.Ctx) (line : String) : String :=
